@@ -141,6 +141,15 @@ func C10Scenarios(tier string) []*h.Scenario {
 			out = append(out, s)
 		}
 	}
+	// API failures while annotated nodes are eligible for reaping (safety predicate only: a twin
+	// would not meet the same fault points)
+	for _, world := range []string{"expired", "fresh"} {
+		s := c10Scenario("c10."+world+".faults", false, 1, world)
+		s.MaxEventsPerSlot = 1
+		s.Prune = true
+		s.FaultOps = map[string]bool{sim.OpK8sGet: true, sim.OpK8sUpdate: true, sim.OpK8sDelete: true, sim.OpTerminate: true, sim.OpListPods: true, sim.OpListNodes: true}
+		out = append(out, s)
+	}
 	return out
 }
 
@@ -162,6 +171,6 @@ func init() {
 		},
 		Nontrivial:  seenKeys,
 		Assumptions: commonAssumptions,
-		Alphabet:    []string{"annotate(i, x | empty | remove)", "pod-start/finish(i)", "ext-taint(i, now-3q | now-5q)", "force-taint(i)", "burst", "clear-pending", "clear-pods", "restart"},
+		Alphabet:    []string{"annotate(i, x | empty | remove)", "pod-start/finish(i)", "ext-taint(i, now-3q | now-5q)", "force-taint(i)", "burst", "clear-pending", "clear-pods", "restart", "fail at k8s get/update/delete, terminate, listers (safety scenarios)"},
 	})
 }
